@@ -9,7 +9,7 @@
 // After its program producer 0 waits for the other producers, waits for quiescence (snapshot), disposes of the task sets
 // (a set whose outstanding count is not zero at quiescence is reported as "wait would hang" and leaked) and destroys the pool.
 // Output (one line):
-//   events t:name:a:b ... | counts c0 c1 ... | snaps pos:wr:nthreads:nrings:nsteal:central:r0,r1,..:s0,s1,.. ... | ts hang=<n> |
+//   events t:name:a:b ... | counts c0 c1 ... | snaps <Q|F>pos:wr:nthreads:nrings:nsteal:central:r0,r1,..:s0,s1,.. ... | ts hang=<n> |
 //   n0 <n0> caps <ring cap> <steal cap> <sharing> timeouts <k> steps <k> | status S
 #include <atomic>
 #include <chrono>
@@ -71,16 +71,18 @@ struct Task {
   }
 };
 
-static void snapshot() {
+static void snapshotK(const char* kind) {
   dispenso::ThreadPool& p = *g_pool;
   std::ostringstream o;
-  o << S->trace.size() << ":" << p.workRemaining_.load() << ":" << p.numThreads_.load() << ":" << p.numRings_.load() << ":"
+  o << kind << S->trace.size() << ":" << p.workRemaining_.load() << ":" << p.numThreads_.load() << ":" << p.numRings_.load() << ":"
     << p.numStealRings_.load() << ":" << p.work_.size_approx() << ":";
   for (size_t i = 0; i < p.rings_.size(); ++i) o << (i ? "," : "") << p.rings_[i].size();
   o << ":";
   for (size_t i = 0; i < p.stealRings_.size(); ++i) o << (i ? "," : "") << p.stealRings_[i].size();
   g_snaps.push_back(o.str());
 }
+
+static void snapshot() { snapshotK("Q"); }
 
 static bool polledWork() {
   dispenso::ThreadPool& p = *g_pool;
@@ -173,7 +175,7 @@ static void runCase(const std::string& line) {
   sch.onQuiescent = snapshot;
   sch.polledWork = polledWork;
   sch.onEvent = [](const vsp::Ev& e) {
-    if (e.name == "pool.dtor.end") snapshot();
+    if (e.name == "pool.dtor.end") snapshotK("F");
   };
   g_sets.assign(progs.size(), nullptr);
   // producers first (tids 0..P-1), then the pool (its workers enrol as P, P+1, ...)
